@@ -83,10 +83,20 @@ def construct (k : Ctor) (plat : Option PlatformDef) (user : List OptInst) : Str
   | none => "dom=0 model=panic spec=-"
   | some po =>
     let opts := po ++ user
-    let dom := allValidB (Scrapli.Options.C19.effective k opts)
+    let eff := Scrapli.Options.C19.effective k opts
+    let dom := allValidB eff
     let m := Scrapli.Options.construct k opts defaults
     let s := Scrapli.Options.C19.specConfig k opts defaults
-    s!"dom={b2s dom} model={showRes m} spec={if dom then showRes s else "-"}"
+    -- hypotheses of `invalid_is_badoption` / `invalid_log_level_is_badoption`
+    let badArg := fun (o : OptInst) => !argValid (spec o.opt) o
+    let invDriver := k != .logging &&
+      opts.any (fun o => (o.opt == .WithTransportType || o.opt == .WithNetconfPreferredVersion) && badArg o) &&
+      opts.all (fun o => o.opt != .WithDefaultLogger || o.envOk)
+    let invLog := k == .logging && opts.any (fun o => o.opt == .logging_WithLevel && badArg o) &&
+      opts.all (fun o => (failsOn .logging_Instance o).isNone || (o.opt == .logging_WithLevel && badArg o))
+    if dom then s!"dom=1 model={showRes m} spec={showRes s}"
+    else if invDriver || invLog then s!"dom=1 model={showRes m} spec=err:badoption"
+    else s!"dom=0 model={showRes m} spec=-"
 
 end C19
 
@@ -100,6 +110,9 @@ def handleC19 : List String → String
     match C19.parseCtor k, C19.parsePlat plat, C19.parseOpts opts with
     | some k, some p, some o => C19.construct k p o
     | _, _, _ => "bad-op"
+  | ["names"] =>
+    ",".intercalate (Scrapli.Gen.PlatformOptions.entries.map fun e =>
+      toHex e.name ++ ":" ++ toHex (ofStr e.documented))
   | ["compat", k, opts] =>
     match C19.parseCtor k, C19.parseOpts opts with
     | some k, some o => b2s (pairwiseB compatB (Scrapli.Options.C19.effective k o))
